@@ -327,7 +327,7 @@ pub fn run(ctx: &mut Ctx) -> Result<(), Violation> {
     ctx.assume("all handles given to an environment were produced by that environment (the library's precondition)");
     ctx.assume("formulas sharing an environment use one common ordering covering all their names (ids must mean the same name)");
 
-    let cases = ctx.tier.pick(20_000, 300_000);
+    let cases = ctx.tier.cases(20_000, 300_000);
     let max_ops = ctx.tier.pick(60, 120);
     let r = par_random(ctx, "histories", cases, 600, |tape, st| {
         let mut t = Tape::new(tape);
@@ -338,7 +338,7 @@ pub fn run(ctx: &mut Ctx) -> Result<(), Violation> {
     ctx.stage("random-histories", false, r)?;
 
     // the caller lets handles go out of scope (and cleans more often)
-    let cases = ctx.tier.pick(20_000, 300_000);
+    let cases = ctx.tier.cases(20_000, 300_000);
     let r = par_random(ctx, "dropping-handles", cases, 600, |tape, st| {
         let mut t = Tape::new(tape);
         let keep = 1 + t.choose(4);
